@@ -110,6 +110,13 @@ add('C06', "genrun", 'same executions as C05 with a tracking allocator inside th
     'Same worlds, values and variants as C05. The guest object carries a tracking global allocator: after every export call and its post-return the set of live heap blocks must equal the set before the call (nothing leaked from parameters the host allocated with cabi_realloc, import results, lowered import arguments, or the returned value), and no block may be freed twice, with a foreign pointer or a wrong size.',
     "Native x86-64 execution (the generated Rust is pointer-width agnostic): one shared object per world, import declarations rewritten into calls of a host callback, exports reached through trampolines whose signatures come from the reference ABI. The guest side is a pure forwarder (export -> import of the same name), so the only code between the host's two observations is generated code. Anonymous option/result/tuple parameters are wrapped into one-field records (results are not); resources, futures and streams are out of these worlds.")
 
+add('C10', "genrun", 'generated proxy worlds x random values x C option variants; native execution against an independent reference canonical ABI (refabi, P = 8); differential oracle on every value in both directions',
+    '120 worlds per quick run (2500 thorough), 1..3 functions each, 3 random value sets per function over scalars, strings, lists, options, results, tuples, records, variants, enums and flags nested to depth 3 (more than 16 flat parameters and multi-value results included) x {default, --no-sig-flattening, --autodrop-borrows=yes}; the host lowers parameters into the export call, lifts them from the import call the guest makes, lowers the import result and lifts the export result; both must equal what was sent.',
+    'Native x86-64 execution with clang: the generated w.c is compiled with malloc/free/realloc redirected into a ledger, a generated glue file defines the import declarations (calls of the host callback), forwards every exported function to the imported one of the same name and releases the owned arguments with the generated *_free helpers (crates/c/README.md), and provides export trampolines with signatures derived from the reference ABI. utf16, maps, fixed-length lists and resources are outside these worlds (the reference host speaks utf8; the C backend declares maps/fixed-length lists unsupported; resource lifetimes belong to C07-style checks).')
+add('C11', "genrun", 'same executions as C10 with a malloc/free ledger inside the guest object; heap-balance oracle per call',
+    'Same worlds, values and variants as C10. After every export call and its post-return the ledger must hold exactly the blocks it held before: post-return frees the returned value, import arguments stay with the caller, the generated *_free helpers (called by the forwarding implementation on its owned arguments) release exactly the owned memory; a free of anything that is not a live block is counted as misuse.',
+    'Native x86-64 execution with clang: the generated w.c is compiled with malloc/free/realloc redirected into a ledger, a generated glue file defines the import declarations (calls of the host callback), forwards every exported function to the imported one of the same name and releases the owned arguments with the generated *_free helpers (crates/c/README.md), and provides export trampolines with signatures derived from the reference ABI. utf16, maps, fixed-length lists and resources are outside these worlds (the reference host speaks utf8; the C backend declares maps/fixed-length lists unsupported; resource lifetimes belong to C07-style checks).')
+
 PENDING_REASON = "check not built yet in this session (planned in DESIGN.md §4); not claimed until it exists and passes its sensitivity runs"
 
 def main():
@@ -161,7 +168,7 @@ def main():
 NA = {}
 HOOK_COMMITS = ["b827c12", "a6f2383"]
 ENGINES = [
-    {"name": "genrun", "path": "harness/genrun", "serves_properties": ["C05", "C06", "C09", "C12", "C13", "C15", "C16", "C17", "C28", "C29", "C30", "C31", "C32", "C33"], "kind_free_text": "tape-driven constructive WIT world generator (harness/witgen) + in-process drivers for all eight generators with panic capture and output collection"},
+    {"name": "genrun", "path": "harness/genrun", "serves_properties": ["C05", "C06", "C09", "C10", "C11", "C12", "C13", "C15", "C16", "C17", "C28", "C29", "C30", "C31", "C32", "C33"], "kind_free_text": "tape-driven constructive WIT world generator (harness/witgen) + in-process drivers for all eight generators with panic capture and output collection"},
     {"name": "abisim", "path": "harness/abisim", "serves_properties": ["C01", "C02", "C03", "C04"], "kind_free_text": "recording wit_bindgen_core::abi::Bindgen + instruction interpreter + independent reference canonical ABI (harness/refabi), driven by proptest"},
     {"name": "asyncsim", "path": "harness/asyncsim", "serves_properties": ["C18", "C19", "C20", "C21", "C22", "C23"], "kind_free_text": "the real Rust async guest runtime executed natively (verif hook) against a mock component-model async host; guest programs + host schedules generated by proptest; second flavour harness/asyncsim-nospawn built from the same sources without async-spawn"},
     {"name": "rtpbt", "path": "harness/rtpbt", "serves_properties": ["C24"], "kind_free_text": "proptest histories against wit_bindgen::rt allocation entry points with a tracking global allocator"},
